@@ -134,7 +134,10 @@ class FloCheck(Check):
         if merr:
             raise RuntimeError("harness: reference model crashed\n%s\n%s" % (merr, script))
         if not res.built or (res.exc is not None and res.exc[0] == "build"):
-            out.violate("rejected", "well-formed program rejected by the builder", "built=%s exc=%r\n%s" % (res.built, res.exc, script[:3000]))
+            why = (type(res.exc[1]).__name__ + ": " + str(res.exc[1]).splitlines()[0][:80]) if res.exc else "; ".join(getattr(res, "build_errors", []))[:120]
+            import re
+            why = re.sub(r"[0-9]+", "N", why)
+            out.violate("rejected", "well-formed program rejected by the builder: %s" % why, "built=%s exc=%r errors=%r\n%s" % (res.built, res.exc, getattr(res, "build_errors", None), script[:3000]))
             out.digest = tr.digest()
             return out
         P = Fraction(plan["P"])
